@@ -297,6 +297,8 @@ def plan_C14(run):
               exhaustive_note="N=23: every hostile A x {zero, 0xFF} proofs for every b; every hostile B in 1..2N-1 x every a; hostile M2")
     r = run.model("adversary-cases", "MCAdversary", "MCAdversary_cases.cfg", workers=1)
     scen = run.scen_file("adversary", r.replay)
+    tr = run.harness("hdradv")
+    run.validate(tr, "TraceCipher", max_events=3000, parallel=6)
     tr = run.harness("adversary", scen=scen)
     run.validate(tr, "TraceAuth")
 
@@ -327,6 +329,8 @@ def plan_C08(run):
 
 
 def plan_C09(run):
+    run.model("wrathstream", "MCWrathStream", "MCWrathStream_%s.cfg" % ("t" if run.thorough else "q"), workers=4,
+              exhaustive_note="all interleavings of chunks in both directions up to MaxBytes on the real RC4-drop1024 keystreams")
     stream_plan(run, "wrath")
 
 
